@@ -218,6 +218,18 @@ def check_swallow(ctx: Ctx, rep: Report, err_base: ClassInfo) -> None:
             if handler_reraises(node):
                 rep.ok("C08-R5", site, text, "handler re-raises on every path")
                 continue
+            # what the guarded block can raise at all: when it only calls a caller-supplied callable (an observer hook)
+            # and evaluates nothing of the library (no repository function, no attribute of a decoded object), no agent
+            # error-status can arrive here
+            owner_try = next((a for a in _ancestors(node) if isinstance(a, ast.Try) and node in a.handlers), None)
+            if owner_try is not None:
+                body_mod = ast.Module(body=list(owner_try.body), type_ignores=[])
+                calls = [c for c in ast.walk(body_mod) if isinstance(c, ast.Call)]
+                foreign_only = bool(calls) and all(isinstance(c.func, ast.Name) and c.func.id in fn.params and not [k for k in ctx.r.callees(fn, c) if isinstance(k, FuncInfo)] for c in calls)
+                reads = [a for a in ast.walk(body_mod) if isinstance(a, (ast.Attribute, ast.Subscript, ast.Await))]
+                if foreign_only and not reads:
+                    rep.ok("C08-R5", site, text, "the guarded block only calls a callable handed in by the caller (an observer hook): nothing of an agent's response is evaluated inside it")
+                    continue
             role = "walk-loop" if any(isinstance(a, (ast.While, ast.For)) for a in _ancestors(node)) and fn.name == "multiwalk" else fn.qualname
             reasons = [SWALLOW_ALLOW.get((role, r)) for r in relevant]
             if all(reasons):
